@@ -32,6 +32,12 @@ fn routes(bits: &[bool], ctx: &mut Ctx, code: u64) -> Vec<(&'static str, Result<
     out.push(("copy.sparse", mk::sparse_set(n, &pos).and_then(|sv| guard(|| BitVector::copy_bit_vec(&sv)))));
     let runs = SetModel::new(n, pos.clone()).runs();
     out.push(("from.rl", mk::rl_runs(n, &runs).and_then(|rv| guard(|| BitVector::from(rv)))));
+    // Conversion from a sparse vector that holds the same positions with duplicates (a multiset): the bits are still B.
+    if !pos.is_empty() {
+        let mut dup: Vec<usize> = Vec::with_capacity(pos.len() * 2);
+        for (k, &p) in pos.iter().enumerate() { dup.push(p); if (k as u64 + code) % 2 == 0 { dup.push(p); } }
+        out.push(("copy.multiset", mk::multiset_set(n, &dup).and_then(|sv| guard(|| BitVector::copy_bit_vec(&sv)))));
+    }
     out
 }
 
